@@ -30,7 +30,14 @@ Inductive case :=
    election window even at its longest, one of its waits ran into a shortened deadline - recorded as
    harness_error): what was recorded says nothing about the code under test.  Never judged (the judge
    abstains), always a broken correspondence ([agree] fails). *)
-| Undriven (c : case).
+| Undriven (c : case)
+(* a relayer of a session with REAL signing processes (the real ECDSA / FROST Signing object on the fixture
+   key shares, the same object for all attempts, over an in-memory network): [c] is its Fail case - the
+   cause is the one the network injected (a failed send of a round message, a dead subset member, a
+   round message that makes the real party blame its sender) or the real process's SubsetError; [live] =
+   the key holders that are real relayers; [sig]: did its replacement attempt complete (coordinator: with a
+   signature that verifies under the group key): 0 = the runner did not wait, 1 = yes, 2 = no *)
+| Real (c : case) (live : list peer) (sig : N).
 
 Definition run_eqb (a b : bool * list peer) : bool := Bool.eqb (fst a) (fst b) && list_peer_eqb (snd a) (snd b).
 Fixpoint runs_eqb (a b : list (bool * list peer)) : bool :=
@@ -60,8 +67,9 @@ Definition obs_eqb (a b : obs) : bool :=
   && lists_eqb (o_inits2 a) (o_inits2 b) && calls_eqb (o_starts a) (o_starts b).
 
 (* [br]: the election's outcome rule *)
-Definition model_with (br : (peer -> N) -> peer -> list bmsg -> list peer -> peer) (c : case) : obs :=
+Fixpoint model_with (br : (peer -> N) -> peer -> list bmsg -> list peer -> peer) (c : case) : obs :=
   match c with
+  | Real c' _ _ => model_with br c'
   | Fail keys tm m holders t self pk _ ready1 start1 e _ bs ready2 msgs2 _ =>
       session (key_of keys) tm m (br (key_of keys)) classify holders t self (retryable_of pk) ready1 start1 e bs ready2 msgs2
   | Silent keys tm m holders t self pk _ msgs1 _ bs ready2 msgs2 _ _ =>
@@ -90,10 +98,23 @@ Definition agree (c : case) : bool :=
   | Duo keys _ m holders t a _ ready1 _ impl_a impl_c =>
       obs_eqb (duo_a (key_of keys) m holders t a ready1) impl_a && agree_obs c impl_c
   | Undriven _ => false
+  | Real c' _ sig =>
+      (* on the unchanged code every scenario's replacement attempt completes *)
+      negb (N.eqb sig SigMissing) &&
+      match c' with
+      | Fail _ _ _ _ _ _ pk r _ _ _ _ _ _ _ impl => Bool.eqb (retryable_of pk) r && agree_obs c' impl
+      | _ => false
+      end
   end.
 
 Definition judge (c : case) : bool :=
   match c with
+  | Real (Fail keys tm m holders t self pk _ ready1 start1 e unreach bs ready2 msgs2 impl) live sig =>
+      match o_runs impl with
+      | [] => true
+      | _ :: _ => real_ok (mkEnv tm holders t self unreach ready2 msgs2) live (retryable_of pk) e 1 impl sig
+      end
+  | Real _ _ _ => true
   | Fail keys tm m holders t self pk _ ready1 start1 e unreach bs ready2 msgs2 impl =>
       match o_runs impl with
       | [] => true                      (* the first attempt never ran: nothing failed *)
@@ -154,6 +175,7 @@ Definition tag (c : case) : N :=
               | None => 0
               end)%N
   | Undriven _ => 8191
+  | Real _ _ sig => (16384 + sig)%N
   end.
 
 Definition check_all := check_cases agree judge tag.
